@@ -139,7 +139,8 @@ func ToParams(protoParams *Params) (*channel.Params, error) {
 
 	var aux channel.Aux
 	copy(aux[:], protoParams.GetAux())
-	params := channel.NewParamsUnsafe(
+	// NewParams validates the parameters like the native decoder does.
+	return channel.NewParams(
 		protoParams.GetChallengeDuration(),
 		parts,
 		app,
@@ -148,8 +149,6 @@ func ToParams(protoParams *Params) (*channel.Params, error) {
 		protoParams.GetVirtualChannel(),
 		aux,
 	)
-
-	return params, nil
 }
 
 // ToState converts a protobuf State to a channel.State.
